@@ -398,6 +398,16 @@ static void cd_rr(vh_sb_t *sb, const char *secname, size_t idx, const ares_dns_r
           snprintf(fp, sizeof(fp), "%s.!concat-length", fn);
           cd_line_u(sb, path, fp, (unsigned long)clen);
         }
+        {
+          /* reading is not an event: a second (and third) read of the same record says the same */
+          size_t               clen2 = 0, clen3 = 0;
+          const unsigned char *c2    = ares_dns_rr_get_bin(rr, key, &clen2);
+          const unsigned char *c3    = ares_dns_rr_get_bin(rr, key, &clen3);
+          if (clen2 != clen || clen3 != clen || (clen && c && c2 && memcmp(c, c2, clen) != 0) || (clen && (c2 == NULL || c3 == NULL) && c != NULL)) {
+            snprintf(fp, sizeof(fp), "%s.!concat-reread-length", fn);
+            cd_line_u(sb, path, fp, (unsigned long)clen2);
+          }
+        }
         break;
       }
       case ARES_DATATYPE_OPT: {
